@@ -255,6 +255,15 @@ def run(ctx):
                     fails.setdefault(key, C.Violation(key=key, what='%s: %s' % (name, msg),
                                                       replay={'oracle': 'decode', 'input': {'cls': name, 'data': hexd}}))
         res.extra['len2_exhaustive_classes'] = len(names)
+    # downgrade rule (see harness/c01.py): no model exists in this run for classes the translator
+    # could not express; their terms are dropped, the oracle above still judged every input
+    from .c01 import _untranslated_names
+    untranslated = _untranslated_names()
+    res.extra['classes_untranslated'] = sorted(untranslated)
+    if untranslated:
+        keep = [i for i, m in enumerate(meta) if m[1] not in untranslated]
+        terms[:] = [terms[i] for i in keep]
+        meta[:] = [meta[i] for i in keep]
     failing, errors = C.coq_cases('C02', 'Model.Codec Gen.Layouts Corr.C01', terms)
     res.mismatches = [{'case': meta[i], 'term': terms[i][:400]} for i in failing[:50]]
     res.corr_errors = errors
